@@ -10,7 +10,7 @@
 #include <pthread.h>
 
 #define OOM_LEDGER_CAP (1u << 16)
-#define OOM_BT 14
+#define OOM_BT 20
 typedef struct {
   void  *p;
   size_t size;
@@ -67,6 +67,7 @@ static int oom_ledger_del(void *p)
 }
 
 static int oom_armed;
+static void oom_set_suffix(void);
 
 static int oom_should_fail(void)
 {
@@ -77,6 +78,7 @@ static int oom_should_fail(void)
   if (oom_fail_at > 0 && oom_count == oom_fail_at) {
     oom_fired    = 1;
     oom_fail_nbt = backtrace(oom_fail_bt, OOM_BT);
+    oom_set_suffix();
     return 1;
   }
   return 0;
@@ -157,6 +159,7 @@ static void oom_run_reset(long fail_at)
   oom_unknown_free = 0;
   oom_fail_nbt     = 0;
   oom_armed        = 1;
+  vh_key_suffix[0] = 0;
 }
 
 /* where did the failed allocation come from?  first frames outside the allocator, as "f1<f2<f3" */
@@ -187,12 +190,24 @@ static uint64_t oom_site(char *out, size_t outlen, void *const *bt, int nbt)
   return h;
 }
 
+/* from the moment the fault fires every violation key of the run names the failed call site (two frames) */
+static void oom_set_suffix(void)
+{
+  char  site[256], *lt;
+  oom_site(site, sizeof(site), oom_fail_bt, oom_fail_nbt);
+  lt = strchr(site, '<');
+  if (lt && (lt = strchr(lt + 1, '<')) != NULL) {
+    *lt = 0;
+  }
+  snprintf(vh_key_suffix, sizeof(vh_key_suffix), "@%s", site[0] ? site : "?");
+}
+
 typedef struct {
   int  ntok;
-  int  status[16];
-  int  cb[16];
-  int  naddr[16];
-  int  nser[16];
+  int  status[32];
+  int  cb[32];
+  int  naddr[32];
+  int  nser[32];
   int  fresh_ok;
   long nalloc;
 } oom_ref_t;
@@ -264,7 +279,7 @@ static void oom_one_run(int kind, int variant, long fail_at, oom_ref_t *out)
   oom_armed = 0;
   if (out) {
     memset(out, 0, sizeof(*out));
-    out->ntok = app_ntok < 16 ? app_ntok : 16;
+    out->ntok = app_ntok < 32 ? app_ntok : 32;
     for (i = 0; i < out->ntok; i++) {
       out->status[i] = app_tok[i].cb_status;
       out->cb[i]     = app_tok[i].cb_count;
@@ -276,7 +291,7 @@ static void oom_one_run(int kind, int variant, long fail_at, oom_ref_t *out)
   }
 }
 
-#define OOM_KINDS 20
+#define OOM_KINDS 22
 #define OOM_STRIDE 8
 
 static void run_oom(uint64_t idx)
@@ -304,8 +319,9 @@ static void run_oom(uint64_t idx)
   }
   vh_count_n("oom_allocations_in_reference_runs", (uint64_t)(r == 0 ? ref.nalloc : 0));
   for (n = r + 1;; n += OOM_STRIDE) {
-    char site[256];
+    char site[256], leakkey[220];
     int  i;
+    vh_trace("oom: ---- begin kind %d variant %d failing allocation #%ld", kind, variant, n);
     oom_one_run(kind, variant, n, &got);
     if (!oom_fired) {
       vh_count("oom_enumeration_past_last_allocation");
@@ -314,6 +330,15 @@ static void run_oom(uint64_t idx)
     vh_count("oom_runs_with_failure");
     vh_fp_add(oom_site(site, sizeof(site), oom_fail_bt, oom_fail_nbt));
     vh_trace("oom: kind %d variant %d n=%ld site %s init_failed %d live %ld", kind, variant, n, site, oom_init_failed, oom_live);
+    if (vh_verbose) {
+      int k;
+      for (k = 0; k < oom_fail_nbt; k++) {
+        char fn[160];
+        fn[0] = 0;
+        __sanitizer_symbolize_pc((char *)oom_fail_bt[k] - 1, "%f %s:%l", fn, sizeof(fn));
+        vh_trace("oom:    failed allocation frame %d: %s", k, fn);
+      }
+    }
     MON_EVAL("oom_ledger_empty_after_destroy");
     if (oom_live != 0) {
       unsigned k;
@@ -330,7 +355,17 @@ static void run_oom(uint64_t idx)
           break;
         }
       }
-      vh_violation("oom:leak", "kind %d variant %d: failing allocation #%ld (%s) leaves %ld block(s) allocated after destroy, e.g. allocation #%ld of %zu bytes %s",
+      {
+        char lk[200], *lt;
+        snprintf(lk, sizeof(lk), "oom:leak:%s", where[0] ? where : "?");
+        /* key = the two innermost frames of the leaked block's allocation */
+        lt = strchr(lk + 9, '<');
+        if (lt && (lt = strchr(lt + 1, '<')) != NULL) {
+          *lt = 0;
+        }
+        snprintf(leakkey, sizeof(leakkey), "%s", lk);
+      }
+      vh_violation(leakkey, "kind %d variant %d: failing allocation #%ld (%s) leaves %ld block(s) allocated after destroy, e.g. allocation #%ld of %zu bytes %s",
                    kind, variant, n, site, oom_live, li, lsz, where);
     }
     MON_EVAL("oom_no_foreign_free");
@@ -347,8 +382,12 @@ static void run_oom(uint64_t idx)
       }
       for (i = 0; i < got.ntok && i < ref.ntok; i++) {
         MON_EVAL("oom_request_fails_or_is_right");
+        /* address lookups deliberately return what the sub-queries that succeeded brought (a failed AAAA query
+         * beside a good A one is a success with the A addresses): fewer addresses are accepted there */
         if (got.cb[i] == 1 && got.status[i] == ARES_SUCCESS && ref.cb[i] == 1 && ref.status[i] == ARES_SUCCESS &&
-            (got.naddr[i] != ref.naddr[i])) {
+            ((app_tok[i].kind == RK_GETADDRINFO || app_tok[i].kind == RK_GETHOSTBYNAME)
+               ? (got.naddr[i] > ref.naddr[i] || (got.naddr[i] == 0 && ref.naddr[i] > 0))
+               : (got.naddr[i] != ref.naddr[i]))) {
           vh_violation("oom:success-with-different-result",
                        "kind %d variant %d: failing allocation #%ld (%s): request %d reports success with %d addresses, %d without the failure", kind, variant, n,
                        site, i, got.naddr[i], ref.naddr[i]);
@@ -361,8 +400,8 @@ static void run_oom(uint64_t idx)
     } else {
       vh_count("oom_failed_during_init");
     }
-    if (vh_case_viol) {
-      break;
+    if (vh_case_viol > 12) {
+      break; /* enough witnesses from this slot */
     }
   }
   case_nontrivial = 1;
